@@ -111,7 +111,7 @@ def main():
             "guard": "cargo feature `verif` on the avra-rs package (cfg(feature = \"verif\"))",
             "enable": "the harness depends on /repo by path; hook-level validation enables the feature through that dependency (features = [\"verif\"]); the primary checks need no hooks",
             "baseline_off_cmd": "cd /repo && cargo test --workspace --no-fail-fast --offline",
-            "source_commits": ["4bdd6677223e2f14d6c4d8486562255e0e9d6b83", "993fe3ea6cacc957871a5cc3ef0e7e8784649e84", "eac84b7bee61c8db82056b399a70c2cffa4cc523", "3f542e06bfa9f6801fc5365c87b8a20a78501eab"],
+            "source_commits": ["4bdd6677223e2f14d6c4d8486562255e0e9d6b83", "993fe3ea6cacc957871a5cc3ef0e7e8784649e84", "eac84b7bee61c8db82056b399a70c2cffa4cc523", "3f542e06bfa9f6801fc5365c87b8a20a78501eab", "fe036f18d2a0a21c0e8e9b0eaa035feeeeca4a93"],
             "add_only": True,
         },
         "engines": [
